@@ -205,8 +205,18 @@ def _scores(st, dom, idxs, extra, only=None):
             st.compared += 1
             if not (abs(got - exp) <= 1e-8 * max(1.0, abs(exp))):
                 N_obs = sum(1 for n in N.values() if sum(n) > 0)
+                f12c = None
+                if name == "bds":
+                    # model of the recorded defect F12c: alpha = ess/q_obs but beta = ess/(q*r), plus BDeu's adjustment terms
+                    lg = math.lgamma
+                    r_, q_, qo = ddom[COLS.index(v)], len(N), N_obs
+                    a_, b_ = ess / qo, ess / (q_ * r_)
+                    obs_n = [n for n in N.values() if sum(n) > 0]
+                    f12c = (sum(lg(x + b_) for n in obs_n for x in n) + (q_ - qo) * r_ * lg(b_)
+                            - sum(lg(sum(n) + a_) for n in obs_n) - (q_ - qo) * lg(a_) + qo * lg(a_) - q_ * r_ * lg(b_))
                 st.violation(name + ".local_score", "wrong-score", case, got, exp,
                              detail={"q": len(N), "q_obs": N_obs, "r": ddom[COLS.index(v)], "diff": got - exp,
+                                     "f12c_model_match": bool(f12c is not None and N_obs < len(N) and abs(got - f12c) <= 1e-8 * max(1.0, abs(f12c))),
                                      "unseen_child_states": sum(1 for k in range(ddom[COLS.index(v)]) if all(n[k] == 0 for n in N.values()))})
             else:
                 st.outcome(round(exp, 6))
